@@ -782,6 +782,16 @@ pub fn run_history(rep: &mut Rep, cfg: &MonCfg, sut: &mut dyn Sut, ops: &[TOp], 
         }
         if diverged.is_some() {
             rep.count("histories_stopped_on_state_divergence");
+            if cfg.focus == Focus::Proofs {
+                // C07 speaks about the tree's *own* current root and stored leaves: even when the state has left
+                // the model (another property's subject) every proof must still recompute the root the tree reports
+                let watch = watch_positions(&m, &touched, rng);
+                for &i in watch.iter().take(24) {
+                    if check_proof_self(rep, &m, sut, i, &name, kind, &show_hist(k)) {
+                        break;
+                    }
+                }
+            }
             return HistResult { steps, diverged: true };
         }
         // ---- full observation
@@ -904,6 +914,30 @@ pub fn run_history(rep: &mut Rep, cfg: &MonCfg, sut: &mut dyn Sut, ops: &[TOp], 
         rep.inconclusive("model self-check failed (incremental vs naive root)".to_string());
     }
     HistResult { steps, diverged: false }
+}
+
+/// C07 self-consistency at one position (used when the SUT's state differs from the model): the proof must
+/// recompute the root the tree itself reports from the leaf the tree itself stores, and pass the tree's verify.
+fn check_proof_self(rep: &mut Rep, m: &Model, sut: &mut dyn Sut, i: usize, name: &str, kind: &str, hist: &Value) -> bool {
+    let (leaf, root, p) = match (sut.get(i), sut.root(), sut.proof(i)) {
+        (Ok(Some(l)), Ok(r), Ok(Some(p))) => (l, r, p),
+        _ => return false,
+    };
+    rep.ev();
+    rep.stratum(format!("{name}|self-consistency|after={kind}"));
+    if p.elements.len() != m.depth || p.bits.len() != m.depth {
+        rep.violation(format!("{name}:proof:length"), json!({"position": i, "history": hist}));
+        return true;
+    }
+    if m.fold(&leaf, &p.elements, &p.bits) != root {
+        rep.violation(format!("{name}:proof:does-not-recompute-own-root"), json!({"position": i, "depth": m.depth, "history": hist, "note": "state already differs from the ideal tree; checked against the tree's own root and stored leaf"}));
+        return true;
+    }
+    if sut.verify_own(i, &leaf) == Some(false) {
+        rep.violation(format!("{name}:proof:own-proof-rejected"), json!({"position": i, "depth": m.depth, "history": hist}));
+        return true;
+    }
+    false
 }
 
 /// C07 checks at one position; returns true if a violation was recorded
